@@ -6,6 +6,7 @@ from hypothesis import strategies as st
 
 from .. import gen, oracle as O, ps, measures as M
 from ..runner import HypPhase, EnumPhase
+from .c04 import indices_for
 
 PID = "C05"
 RULE = ("cases = (list of 2..5 valid trains on a dyadic grid, measure in {ISI, SPIKE, SYNC, "
@@ -33,11 +34,15 @@ def _case(draw, tier):
     g = draw(gen.int_train_lists(2, nmax, related=draw(st.sampled_from([False, True])), **sz))
     c = gen.to_times(g)
     c["measure"] = draw(st.sampled_from(M.MEASURES))
-    c["mrts"] = draw(gen.mrts_for(g))
+    c["mrts"] = draw(gen.mrts_for(g, allow_auto=True))
     c["ri"] = draw(st.booleans())
     c["max_tau"] = draw(gen.maxtau_for(g))
     c["interval"] = None if c["measure"] == "ORDER" else draw(gen.interval_arg_for(g))
-    c["form"] = draw(st.sampled_from(["list", "args"]))
+    c["form"] = draw(st.sampled_from(["list", "args", "indices"]))
+    if c["form"] == "indices":
+        # a selection through `indices` (any order): distance and profile of
+        # the same selection
+        c["indices"] = draw(indices_for(len(c["trains"]), allow_none=False))
     c["compiled"] = draw(st.booleans())
     return c
 
@@ -74,6 +79,10 @@ PHASES = [
 def classify(case):
     labels = ["measure:" + case["measure"], "N=%d" % len(case["trains"]),
               "compiled" if case["compiled"] else "fallback", "form:" + case["form"]]
+    if case["mrts"] == "auto":
+        labels.append("mrts_auto")
+    if case.get("indices") is not None and case["indices"] != sorted(case["indices"]):
+        labels.append("indices_not_ascending")
     iv = case["interval"]
     if iv is None:
         labels.append("interval:none")
@@ -103,9 +112,11 @@ def run_case(case, ctx):
     fn = M.funcs(case["measure"])
     kw = M.kwargs_for(case["measure"], case)
     iv = gen.to_interval(case["interval"])
-    args = (sts,) if (case["form"] == "list" or len(sts) == 2 and False) else tuple(sts)
-    if case["form"] == "list":
+    args = tuple(sts)
+    if case["form"] in ("list", "indices"):
         args = (sts,)
+    if case["form"] == "indices":
+        kw["indices"] = list(case["indices"])
     dkw = dict(kw)
     if fn["interval"]:
         dkw["interval"] = iv
